@@ -75,6 +75,8 @@ def gen_random(rng, nmax):
         c["pct"] = [3, 40 * n]
     if rng.random() < 0.15:
         c["spurious"] = [150, rng.randrange(1, 4)]
+    if rng.random() < 0.25:
+        c["opts"]["lowfds"] = rng.choice([1, 1, 1, 3, 7])   # descriptors 0 / 0,1 / 0,1,2 are free: connections get them
     return c
 
 
@@ -87,8 +89,11 @@ def vectors(n, keys, settings, fanouts, rng):
             for f in fanouts:
                 if f > n + 1:
                     continue
-                yield T.mk_case([A[k] for k in vec], f, ct, ut, sopt, rng.randrange(1, 1 << 30),
-                                strategy=rng.choice(["uniform", "uniform", "starveD", "eagerD"]))
+                c = T.mk_case([A[k] for k in vec], f, ct, ut, sopt, rng.randrange(1, 1 << 30),
+                              strategy=rng.choice(["uniform", "uniform", "starveD", "eagerD"]))
+                if rng.random() < 0.2:
+                    c["opts"]["lowfds"] = rng.choice([1, 1, 7])
+                yield c
 
 
 def run(ctx):
@@ -209,7 +214,7 @@ def real_runs(ctx, cov):
         wall = time.time() - t0
         want = ["r0: out-r0", "r1: out-r1", "r2: before-r2", "r3: out-r3", "r4: late-r4", "r5: out-r5"]
         missing = [w for w in want if w not in out.splitlines()]
-        reported = any(l.endswith("r2: command timeout") for l in err.splitlines())
+        reported = any(re.match(r"^pdsh@[^:]*: r2: \S", l) for l in err.splitlines())   # under its name; any wording
         # sequential worst case at fanout 1: 1 s (r4) + command timeout 2 + WDOG_POLL 2, plus generous slack
         ok = not missing and reported and "r0: err-r0" in err.splitlines() and wall < 2 + 2 + 1 + 6 and rc >= 0
         real.append({"fanout": fan, "wall_s": round(wall, 2), "ok": ok, "missing": missing, "timeout_reported": reported})
@@ -259,6 +264,9 @@ def explore(ctx, exe_san, exe, variant, cov, dist):
             cov["evaluations"] += 1
             st = (r["M"] or {}).get("status", "crash")
             dist["status"][st] = dist["status"].get(st, 0) + 1
+            dist["connections_on_low_descriptors"] = dist.get("connections_on_low_descriptors", 0) + \
+                sum(1 for _, ev in r["steps"] if len(ev) > 1 and ev[1] == "connectEnd" and ev[-1] == "lowfd") + \
+                sum(1 for _, t in r["inline"] if len(t) > 1 and t[1] == "connectEnd" and t[-1] == "lowfd")
             dist["yield"][r["case"]["yield"]] = dist["yield"].get(r["case"]["yield"], 0) + 1
             dist["N"][str(len(r["case"]["hosts"]))] = dist["N"].get(str(len(r["case"]["hosts"])), 0) + 1
             dist["excluded_runs"] += 1 if T.excluded(r["case"]) else 0
